@@ -400,7 +400,11 @@ impl<T, Flds> Recognizer for NamedFieldsRecognizer<T, Flds> {
 
     fn reset(&mut self) {
         self.progress.clear();
-        self.state = BodyFieldState::Init;
+        self.state = if self.is_attr_body {
+            BodyFieldState::Between
+        } else {
+            BodyFieldState::Init
+        };
         (self.reset)(&mut self.fields)
     }
 }
@@ -529,7 +533,11 @@ impl<T, Flds> Recognizer for OrdinalFieldsRecognizer<T, Flds> {
 
     fn reset(&mut self) {
         self.index = 0;
-        self.state = BodyStage::Init;
+        self.state = if self.is_attr_body {
+            BodyStage::Between
+        } else {
+            BodyStage::Init
+        };
         (self.reset)(&mut self.fields)
     }
 }
